@@ -569,6 +569,8 @@ def rule_yield_passthrough(ctx: Ctx, rule: str) -> None:
         # numbered by position on the path (the evaluator forks by replaying a path, so the name must not depend on anything else)
         done = sum(1 for e in fr.ev.events if e[0] == 'poll')
         fr.ev.events.append(('poll', done + 1, tuple(fr.ev.ctx)))
+        if any(k2.startswith('aborted?') and v2 is True and int(k2[len('aborted?'):]) <= done for k2, v2 in fr.ev.decisions.items()):
+            return True  # the flag stays set until reset(): a later poll cannot answer "not aborted"
         return Opaque(f'aborted?{done + 1}')
     _ev2, rows2 = api_table(repo, WM, 'WcMatch._walk', explore_handlers=True, max_paths=200000, call_models={f'{WM}:WcMatch.is_aborted': fresh})
     bad_k = []
